@@ -22,7 +22,8 @@ GenClassLists == {<<Cl("true", 1)>>, <<Cl("tos", 0), Cl("true", 1)>>, <<Cl("tos"
 GenPkts == {P(4, d, 0, 0) : d \in 0..63} \cup {P(4, d, 184, 0) : d \in {0, 5, 15, 16, 19, 20, 21, 22, 23, 24, 31, 32, 40, 63}} \cup
            {P(4, 21, 0, 1), P(4, 21, 184, 2), P(4, 0, 0, 2), P(4, 40, 184, 1)} \cup
            {P(6, d, t, 0) : d \in {0, 21, 31, 32, 63}, t \in {0, 184}} \cup
-           {P(4, 0 - 1, 0, 0), P(4, 0 - 1, 184, 0), P(4, 0 - 2, 0, 1), P(6, 0 - 1, 0, 0)}   \* outside the embedded space
+           {P(4, 0 - 1, 0, 0), P(4, 0 - 1, 184, 0), P(4, 0 - 2, 0, 1), P(6, 0 - 1, 0, 0)} \cup  \* outside the embedded space
+           {P(6, 21, 0, 3), P(6, 32, 184, 3), P(6, 21, 0, 4), P(6, 0, 184, 4)}       \* IPv6 fragment / extension headers
 
 \* policies (W = 4)
 A1 == 1
